@@ -193,9 +193,10 @@ theorem nf_flow (pf M : Nat) {g : G} (h : NF Poisoned CallOK g) (p : State) (hp 
 
 /-! ### programs -/
 
-/-- every call of the program is an interleaving call -/
+/-- every call of the program is an interleaving call, and there is no literal `fail` -/
 def RProg.Inter : RProg → Prop
   | .succeed => True
+  | .fail => False
   | .atom _ => True
   | .conj p q => p.Inter ∧ q.Inter
   | .alt p q => p.Inter ∧ q.Inter
@@ -205,6 +206,7 @@ def RProg.Inter : RProg → Prop
 theorem prog_grel (ho : OrderOK ord) (ho' : OrderOK ord') {m : Nat} : ∀ (p : RProg), p.WF m → p.Inter →
     GRel2 TR2 Poisoned CallOK (p.goal ord) (p.goal ord') ∧ NF Poisoned CallOK (p.goal ord) ∧ NF Poisoned CallOK (p.goal ord')
   | .succeed, _, _ => ⟨.succeed, .succeed, .succeed⟩
+  | .fail, _, hi => hi.elim
   | .atom t, _, _ => ⟨.atom (atom_rel2 ho ho' t), .atom (atomPass _), .atom (atomPass _)⟩
   | .conj p q, w, hi => by
     obtain ⟨r1, n1, n1'⟩ := prog_grel ho ho' p w.1 hi.1
